@@ -151,6 +151,26 @@ Delete(i, n) ==
     /\ content' = [content EXCEPT ![i][n] = 0]
     /\ hist' = Append(hist, [op |-> "delete", i |-> i, n |-> n, obs |-> Observation(-1, cache, loads)])
     /\ UNCHANGED <<mtime, loads, cache, cacheOn, autoReload, clock, remembered>>
+\* the file changes while the engine is reading it: the loader has handed out the old source and the new version (with a newer
+\* stamp) is in place before the call returns.  Which of the two this call serves is open (alt); the NEXT call sees the change like
+\* any other -- the entry must not be left with the old content under the new stamp.  Sequentially: Render(n), then Put(w, n, v).
+RenderPut(n, v) ==
+    LET w == FirstWith(n) IN
+    /\ w # 0 /\ TsAware(w) /\ v \in Vers /\ content[w][n] \in Vers /\ content[w][n] # v
+    /\ ~(cacheOn /\ cache[n].ver # 0 /\ ~Stale(n))                  \* the call reads the loaders
+    /\ (~cacheOn => ~(cache[n].ver # 0 /\ cache[n].from = 0))
+    /\ ~(TwoPaths /\ remembered[n] = 3 /\ ((w = 2 /\ content[3][n] # 0) \/ (w = 3 /\ content[2][n] # 0)))
+    /\ LET entry == [ver |-> content[w][n], from |-> w, lastMod |-> mtime[w][n]]
+           c2 == IF cacheOn THEN [cache EXCEPT ![n] = entry] ELSE cache
+           rd == ReadsFor(n)
+           mt2 == NewestStamp(n) + 1
+       IN /\ loads' = rd /\ cache' = c2
+          /\ remembered' = [remembered EXCEPT ![n] = w]
+          /\ content' = [content EXCEPT ![w][n] = v]
+          /\ mtime' = [mtime EXCEPT ![w][n] = mt2]
+          /\ hist' = Append(hist, [op |-> "renderput", n |-> n, i |-> w, v |-> v, mt |-> mt2, alt |-> v, obs |-> Observation(content[w][n], c2, rd)])
+          /\ UNCHANGED <<cacheOn, autoReload, clock>>
+
 SetCache(b) ==
     /\ cacheOn # b
     /\ cacheOn' = b
@@ -169,6 +189,7 @@ SetDevMode(b) ==
 Next ==
     /\ Len(hist) < MaxLen
     /\ \/ \E n \in NamesUsed : Render(n)
+       \/ \E n \in NamesUsed : \E v \in Vers : RenderPut(n, v)
        \/ \E n \in RegNames \cap NamesUsed : \E v \in Vers : Register(n, v)
        \/ \E n \in RegNames \cap NamesUsed : \E old \in BOOLEAN : RegCompiled(n, 1, old)
        \/ \E a \in RegNames \cap NamesUsed : \E n \in NamesUsed : RegAlias(a, n)
